@@ -39,6 +39,7 @@ def run(model, rep, tier):
     tsrules.no_stop_without_flag(ctx, rep, 'C04.R9')
     r11_totals_line(ctx, rep)
     r12_nullable_results(ctx, rep)
+    r13_user_exceptions_not_hashed(ctx, rep)
     rep.units['cfg'] = ctx.cfg_stats
 
 
@@ -785,3 +786,66 @@ def r12_nullable_results(ctx, rep, R='C04.R12'):
     n = nullable.check(ctx, rep, R)
     n += nullable.check_locals(ctx, rep, R)
     rep.floor(R, n, 4, 'nullable results / locals followed to their uses')
+
+
+# ---------------------------------------------------------------------------------------------
+# R13 -- exception objects raised by user code are only looked at, never hashed / compared
+
+EXC_ATTRS = ('__traceback__', '__cause__', '__context__', '__suppress_context__', 'with_traceback')
+
+
+def r13_user_exceptions_not_hashed(ctx, rep, R='C04.R13'):
+    rep.rule(R, 'the code that formats a failure does not hash or compare the exception object that '
+             'user code raised ("every exception class derived from Exception": a class may define '
+             '__eq__ without __hash__, or an __eq__ / __hash__ that raises): a name the function '
+             'treats as an exception (it reads __traceback__ / __cause__ / __context__ from it), or '
+             'the __cause__ / __context__ taken from one, is not added to a set, used as a dict key '
+             'or tested with in / == against a collection -- identities (id(x), "is") are used instead')
+    m = ctx.model
+    n = 0
+    for fi in m.all_functions():
+        if fi.module.name.startswith('tests'):
+            continue
+        # names that are exceptions by the evidence of their use
+        excs = set()
+        for x in ast.walk(fi.node):
+            if isinstance(x, ast.Attribute) and x.attr in EXC_ATTRS and isinstance(x.value, ast.Name):
+                excs.add(x.value.id)
+        if not excs:
+            continue
+        changed = True
+        while changed:
+            changed = False
+            for x in ast.walk(fi.node):
+                if isinstance(x, ast.Assign) and len(x.targets) == 1 and isinstance(x.targets[0], ast.Name) and \
+                        isinstance(x.value, ast.Attribute) and x.value.attr in ('__cause__', '__context__') and \
+                        isinstance(x.value.value, ast.Name) and x.value.value.id in excs and \
+                        x.targets[0].id not in excs:
+                    excs.add(x.targets[0].id)
+                    changed = True
+        n += 1
+        bad = []
+        for x in ast.walk(fi.node):
+            if isinstance(x, ast.Call) and isinstance(x.func, ast.Attribute) and \
+                    x.func.attr in ('add', 'setdefault', 'discard', 'remove', 'index', 'count') and x.args and \
+                    isinstance(x.args[0], ast.Name) and x.args[0].id in excs and \
+                    not (x.func.attr in ('remove', 'index', 'count') and False):
+                bad.append(x)
+            elif isinstance(x, ast.Compare) and isinstance(x.left, ast.Name) and x.left.id in excs and \
+                    any(isinstance(o, (ast.In, ast.NotIn, ast.Eq, ast.NotEq)) for o in x.ops) and \
+                    not any(isinstance(c, ast.Constant) for c in x.comparators):
+                bad.append(x)
+            elif isinstance(x, ast.Subscript) and isinstance(x.slice, ast.Name) and x.slice.id in excs and \
+                    isinstance(x.value, ast.Name):
+                bad.append(x)
+            elif isinstance(x, (ast.Set, ast.Dict)):
+                keys = x.elts if isinstance(x, ast.Set) else x.keys
+                if any(isinstance(k, ast.Name) and k.id in excs for k in keys):
+                    bad.append(x)
+        rep.check(not bad, R, '%s: the exception objects %s are not hashed or compared' % (fi.qualname, sorted(excs)),
+                  'the exception object raised by user code is hashed / compared by value (%s): an '
+                  'exception class without __hash__ (or with a raising __eq__) makes the failure report '
+                  'itself raise, and the run is aborted instead of the failure being recorded'
+                  % '; '.join(norm(b)[:50] for b in bad[:3]), key='exc-hash:' + fi.qualname,
+                  func=fi.qualname, where=ctx.where(fi, bad[0] if bad else fi.node))
+    rep.floor(R, n, 2, 'functions that handle exception objects')
